@@ -93,3 +93,21 @@ pub proof fn lemma_first_true(flags: Seq<bool>)
         }
     }
 }
+pub open spec fn sum_usize(k: Seq<usize>) -> nat
+    decreases k.len()
+{
+    if k.len() == 0 { 0 } else { sum_usize(k.drop_last()) + k.last() as nat }
+}
+/// s.chars().map(f).sum::<usize>(): the sum of f over the chars of s, in order (when it fits usize; std panics or wraps
+/// otherwise).  Stated for ANY sequence of results that f's postcondition forces.
+#[verifier::external_body]
+pub fn vx_chars_map_sum<F: FnMut(char) -> usize>(s: &str, f: F) -> (r: usize)
+    ensures
+        forall|outs: Seq<usize>|
+            outs.len() == s@.len()
+            && (forall|i: int, o: usize| 0 <= i < outs.len() && f.ensures((s@[i],), o) ==> o == outs[i])
+            && sum_usize(outs) <= usize::MAX
+            ==> r == #[trigger] sum_usize(outs),
+{
+    s.chars().map(f).sum()
+}
